@@ -42,6 +42,7 @@ def shards(tier, seed):
             Lmax, wmax = (5, 3) if A <= 4 else (4, 2)
         if A in (3, 4):
             out.append(dict(name="alphabet_history/A%d" % A, fn="alphabet_history", A=A, Lmax=Lmax, wmax=wmax, weight=500))
+            out.append(dict(name="largebatch/A%d" % A, fn="largebatch", A=A, Lmax=Lmax, wmax=wmax, weight=500))
         for fn in ("substitute", "insert", "delete", "randomize", "invalid"):
             out.append(dict(name="%s/A%d" % (fn, A), fn=fn, A=A, Lmax=Lmax, wmax=wmax,
                             weight=A ** Lmax))
@@ -311,8 +312,13 @@ def run_multisubstitute(rec, sh):
                                         exp[:, pos[i]:pos[i] + widths[i]] = mots[i]
                                 case = dict(fn="multisubstitute", A=A, L=L, motifs=[s_of(m_) for m_ in mots],
                                             form=form, spacing=sp, start=p)
+                                sp_before = list(sp) if isinstance(sp, list) else sp
                                 _check_call(rec, "multisubstitute", ersatz.multisubstitute, X, Xc, [],
                                             valid, exp, case, (margs, sp), dict(start=p, alphabet=alpha))
+                                if sp != sp_before:
+                                    # the SAME list object is reused for all starts: a call that edits it breaks the later calls too
+                                    rec.violation("multisubstitute:spacing_argument_modified", case, expected=sp_before, observed=list(sp))
+                                    sp[:] = sp_before
         rec.sample(dict(fn="multisubstitute", A=A, L=L, motif_lists="1..3 motifs, widths<=%d" % wmax,
                         spacing="0..L int, lists, -1", starts="-3..L+3,None"))
 
@@ -370,6 +376,34 @@ def run_smallbatch(rec, sh):
                                     dict(fn="delete", A=A, L=L, B=B, seqs=[s_of(c) for c in codes], start=a, end=b),
                                     (a, b), {})
     rec.sample(dict(fn="smallbatch", A=A, B="1,2,3", L="1..%d" % Lmax))
+
+
+def run_largebatch(rec, sh):
+    """Batches beyond 256 examples (Python's small-int cache, 8-bit counters) with shared and per-example motifs."""
+    from tangermeme import ersatz
+    A = sh["A"]
+    alpha = list(ALPHA[:A])
+    rs = numpy.random.RandomState(5)
+    for B in (255, 256, 257, 300, 1000):
+        L = 6
+        codes = rs.randint(0, A, (B, L))
+        X = ohe(codes, A, torch.float32)
+        Xc = X.clone()
+        for w in (1, 3):
+            per = rs.randint(0, A, (B, w))
+            for form, rows in (("per", per), ("shared", per[:1]), ("str", per[:1])):
+                marg = _motif_forms(rows, A, form, B)
+                extra = [(marg, marg.clone())] if isinstance(marg, torch.Tensor) else []
+                for p in (0, 2, L - w, L):
+                    case = dict(fn="substitute", A=A, L=L, B=B, w=w, form=form, start=p, batch="rs(5)")
+                    valid = 0 <= p <= L - w
+                    _check_call(rec, "substitute", ersatz.substitute, X, Xc, extra, valid, _expect_sub(codes, rows, p) if valid else None, case, (marg,),
+                                dict(start=p, alphabet=alpha))
+                    _check_call(rec, "insert", ersatz.insert, X, Xc, extra, True, _expect_ins(codes, rows, p), dict(case, fn="insert"), (marg,),
+                                dict(start=p, alphabet=alpha))
+        _check_call(rec, "delete", ersatz.delete, X, Xc, [], True, numpy.concatenate([codes[:, :1], codes[:, 4:]], axis=1),
+                    dict(fn="delete", A=A, L=L, B=B, start=1, end=4), (1, 4), {})
+    rec.sample(dict(fn="largebatch", A=A, B=[255, 256, 257, 300, 1000]))
 
 
 def run_invalid(rec, sh):
@@ -486,6 +520,9 @@ def run_shard(sh, tier, seed):
     fn = sh["fn"]
     if fn == "alphabet_history":
         run_alphabet_history(rec, sh)
+        return rec.result()
+    if fn == "largebatch":
+        run_largebatch(rec, sh)
         return rec.result()
     if fn in ("substitute", "insert"):
         run_substitute_insert(rec, sh, fn)
